@@ -9,7 +9,7 @@ import (
 	"verifharness/internal/val"
 )
 
-var c06Floor = []string{"distinct", "distinct.star", "distinct.multi", "distinct.dups", "distinct.lookalike", "distinct.grouped", "distinct.derived", "distinct.cte", "union.all", "union.distinct", "union.mixed", "chain.2", "chain.3", "chain.4", "union.limit", "union.limit.offset", "union.dups", "where", "badutf8", "union.cte", "union.cte.chain3"}
+var c06Floor = []string{"distinct", "distinct.star", "distinct.multi", "distinct.dups", "distinct.lookalike", "distinct.grouped", "distinct.derived", "distinct.cte", "union.all", "union.distinct", "union.mixed", "chain.2", "chain.3", "chain.4", "union.limit", "union.limit.offset", "union.dups", "where", "badutf8", "union.cte", "union.cte.chain3", "branch.window"}
 
 func init() {
 	fw.Register(&fw.Prop{
@@ -195,6 +195,26 @@ func c06Run(c *fw.Case) {
 	for i := 0; i < k; i++ {
 		tb := gen.Pick(c.R, []string{"t1", "t2"})
 		w := whereOf()
+		// a parenthesised branch with its own window: a plain or DISTINCT select,
+		// or a union of two selects; its standalone output is that text run alone
+		if !overCTE && (force == "branch.window" || force == "" && c.Chance(0.15)) {
+			inner := "SELECT " + gen.Pick(c.R, []string{"", "DISTINCT "}) + sel + " FROM " + tb + w
+			if c.Chance(0.5) {
+				inner = "SELECT " + sel + " FROM " + tb + w + gen.Pick(c.R, []string{" UNION ", " UNION ", " UNION ALL "}) + "SELECT " + sel + " FROM " + gen.Pick(c.R, []string{"t1", "t2"})
+			}
+			inner += fmt.Sprintf(" LIMIT %d", 1+c.Intn(4))
+			if c.Chance(0.4) {
+				inner += fmt.Sprintf(" OFFSET %d", c.Intn(3))
+			}
+			standalone = append(standalone, inner)
+			branches = append(branches, "("+inner+")")
+			feats = append(feats, "branch.window")
+			if i > 0 {
+				all := c.Chance(0.4)
+				conns = append(conns, all)
+			}
+			continue
+		}
 		standalone = append(standalone, "SELECT "+sel+" FROM "+tb+w)
 		if overCTE && (i < 2 || c.Chance(0.7)) {
 			tb = cteOf[tb]
